@@ -15,6 +15,8 @@
 package compile
 
 import (
+	"maps"
+	"slices"
 	"strings"
 
 	"cuelang.org/go/cue/ast"
@@ -274,8 +276,10 @@ func (c *compiler) pushScope(n labeler, upCount int32, id ast.Node) *frame {
 func (c *compiler) popScope() {
 	k := len(c.stack) - 1
 	f := c.stack[k]
-	for k, v := range f.aliases {
-		if !v.used {
+	// Report in a fixed order: the first error of the list ends up in
+	// messages, and ranging over the map would pick a different one each run.
+	for _, k := range slices.Sorted(maps.Keys(f.aliases)) {
+		if v := f.aliases[k]; !v.used {
 			c.errf(v.source, "unreferenced alias or let clause %s", k)
 		}
 	}
